@@ -31,6 +31,9 @@ EventErrs(e) ==
          Fail("C19.children", \A i \in NIds : C19children(T, ND(i), NDS(e.out[i])))
     [] e.a = "terminals" ->
          Fail("C19.terminals", \A i \in NIds : C19terminals(T, ND(i), NDS(e.out[i])))
+    [] e.a = "helpers" ->
+         Fail("C19.terminals_unordered", \A i \in NIds : C19termset(T, ND(i), NDS(e.uterms[i]))) \cup
+         Fail("C19.has_children", \A i \in NIds : C19haskids(T, ND(i), e.haskids[i]))
     [] e.a = "preorder" ->
          Fail("C19.preorder", \A i \in NIds : C19pre(T, ND(i), NDS(e.out[i])))
     [] e.a = "postorder" ->
